@@ -113,6 +113,7 @@ type FuncContract struct {
 	Trusted    string
 	AllowPanic bool
 	TrackLocks bool
+	CheckBounds bool // dataflow-only unit that keeps its bounds obligations
 	RelockHavoc []string // map types whose heaps become arbitrary when a mutex is re-acquired (track-locks relock-havoc)
 	DataflowOnly string // non-empty: only contract-derived obligations are generated (no nil/bounds/overflow/frame/panic checks)
 	Notes      []string
@@ -730,6 +731,11 @@ func parseContractFile(path string, pc *PkgContracts) error {
 				// written in the contract (callsite requires, asserts, ensures) are checked, on executions that do not
 				// panic; calls without contract are over-approximated (havoc). Listed as an assumption.
 				cur.DataflowOnly = c.text
+				// `dataflow-only check-bounds REASON`: index / slice / make-length obligations ARE generated for this
+				// unit (a panic on a computed index is exactly what is to be excluded), the other safety kinds are not
+				if strings.HasPrefix(strings.TrimSpace(c.text), "check-bounds") {
+					cur.CheckBounds = true
+				}
 				if cur.DataflowOnly == "" {
 					cur.DataflowOnly = "only the stated clauses are checked"
 				}
